@@ -197,6 +197,11 @@ def check(ctx: Ctx):
             if isinstance(c, ast.Call) and isinstance(c.func, ast.Attribute) and c.func.attr in ("variant_a", "variant_b", "variant_c") and is_self_attr(c.func):
                 ctx.check([norm(a) for a in c.args] == ["delta", "best_cost", "args_best"], "R-MOVE", f"{cls}: variant called with (delta, best_cost, args_best)", ev, c,
                           "the variant must receive the optimal cost and the optimal values in their parameter roles")
+    # best response used for the move is computed for the assignment at hand (or memoised under a complete key)
+    for mod, qual, helper in (("pydcop.algorithms.dsa", "DsaComputation.evaluate_cycle", "find_optimal"),
+                              ("pydcop.algorithms.adsa", "ADsaComputation.tick", "find_best_values"),
+                              ("pydcop.algorithms.dsatuto", "DsaTutoComputation.on_new_cycle", "find_optimal")):
+        _check_best_response_source(ctx, repo.func(mod, qual), helper)
     M.check_mode_args(ctx, [repo.func("pydcop.algorithms.dsa", "DsaComputation.evaluate_cycle"),
                             repo.func("pydcop.algorithms.dsa", "DsaComputation.on_start"),
                             repo.func("pydcop.algorithms.adsa", "ADsaComputation.delayed_start"),
@@ -210,6 +215,36 @@ def check(ctx: Ctx):
     ctx.floor("R-MOVE", 12)
     ctx.floor("R-MODE.b", 12)
     ctx.floor("R-TIES", 12)
+
+
+def _check_best_response_source(ctx, f, helper):
+    """The (values, cost) pair a DSA variant moves on is the helper's result
+    for the assignment of *this* cycle: bound directly from the call, or read
+    from a memo whose key identifies the whole assignment (names and values)."""
+    ctx.touch(f)
+    binds = [n for n in walk_no_nested(f.node) if isinstance(n, ast.Assign) and isinstance(n.targets[0], ast.Tuple) and len(n.targets[0].elts) == 2
+             and any(isinstance(c, ast.Call) and call_name(c) == helper for c in ast.walk(n.value))]
+    memo_reads = [n for n in walk_no_nested(f.node) if isinstance(n, ast.Assign) and isinstance(n.targets[0], ast.Tuple) and len(n.targets[0].elts) == 2
+                  and isinstance(n.value, ast.Subscript) and is_self_attr(n.value.value)]
+    if binds and not memo_reads:
+        ok = len(binds) == 1 and isinstance(binds[0].value, ast.Call) and call_name(binds[0].value) == helper
+        ctx.check(ok, "R-MOVE", f"{f.qualname}: best response computed from this cycle's assignment", f, binds[0],
+                  f"the optimal values must be the direct result of {helper}(..) for the current assignment")
+        return
+    if not memo_reads:
+        ctx.bad("R-MOVE", f"{f.qualname}: best response source", f, f.node, f"no binding of the ({helper}) result found")
+        return
+    for mr in memo_reads:
+        key = mr.value.slice
+        kdef = key
+        if isinstance(key, ast.Name):
+            defs = [n for n in walk_no_nested(f.node) if isinstance(n, ast.Assign) and norm(n.targets[0]) == key.id]
+            kdef = defs[0].value if defs else key
+        kt = norm(kdef)
+        complete = ".items()" in kt and ".values()" not in kt
+        ctx.check(complete, "R-MOVE", f"{f.qualname}: memo key of the best response", f, mr,
+                  f"a memoised best response is keyed by `{kt}`: the optimum depends on which neighbour holds which value, "
+                  f"so the key must be built from the (name, value) items, not from the values alone / their arrival order")
 
 
 def _check_slot_use(ctx, f, st, callee, a, b):
@@ -316,6 +351,10 @@ VARIANTS = [
     ("dsa_remove_unguarded", "pydcop/algorithms/dsa.py", "        elif delta == 0:\n            if len(best_values) > 1:\n                try:", "        elif delta == 0:\n            if len(best_values) > 0:\n                try:", "break", "R-MOVE"),
     ("dsa_mode_const", "pydcop/algorithms/dsa.py", "                self.variable, assignment, self.constraints, self.mode\n            )\n            current_cost", "                self.variable, assignment, self.constraints, \"min\"\n            )\n            current_cost", "break", "R-MODE.a"),
     ("dsatuto_worst", "pydcop/algorithms/dsatuto.py", "            self.value_selection(arg_min[0])", "            self.value_selection(self.variable.domain[0])", "break", "R-MOVE"),
+    ("dsa_memo_by_values", "pydcop/algorithms/dsa.py", "            self.current_cycle[self.variable.name] = self.current_value\n            assignment = self.current_cycle.copy()\n            args_best, best_cost = find_optimal(\n                self.variable, assignment, self.constraints, self.mode\n            )",
+     "            seen = tuple(self.current_cycle.values())\n            self.current_cycle[self.variable.name] = self.current_value\n            assignment = self.current_cycle.copy()\n            if seen not in self._best_responses:\n                self._best_responses[seen] = find_optimal(\n                    self.variable, assignment, self.constraints, self.mode\n                )\n            args_best, best_cost = self._best_responses[seen]", "break", "R-MOVE"),
+    ("n_dsa_memo_by_items", "pydcop/algorithms/dsa.py", "            self.current_cycle[self.variable.name] = self.current_value\n            assignment = self.current_cycle.copy()\n            args_best, best_cost = find_optimal(\n                self.variable, assignment, self.constraints, self.mode\n            )",
+     "            self.current_cycle[self.variable.name] = self.current_value\n            seen = frozenset(self.current_cycle.items())\n            assignment = self.current_cycle.copy()\n            if seen not in self._best_responses:\n                self._best_responses[seen] = find_optimal(\n                    self.variable, assignment, self.constraints, self.mode\n                )\n            args_best, best_cost = self._best_responses[seen]", "neutral"),
     ("n_cmp_swapped_operands", _R, "            mode == \"min\" and best_rel_val > current_rel_val", "            mode == \"min\" and current_rel_val < best_rel_val", "neutral"),
     ("n_owncost_unconditional", _R, "        if hasattr(variable, \"cost_for_val\"):\n            cost += variable.cost_for_val(value)", "        cost += variable.cost_for_val(value)", "neutral"),
     ("n_math_inf", _R, "    arg_best, best_cost = [], float(\"inf\")\n    if mode == \"max\":\n        arg_best, best_cost = [], -float(\"inf\")", "    arg_best, best_cost = [], np.inf\n    if mode == \"max\":\n        arg_best, best_cost = [], -np.inf", "neutral"),
